@@ -15,6 +15,36 @@ Thread interleavings of the worker pool are not explored (frame-disjointness arg
 from pyvc.spec import *
 from pyvc import spec as _spec_mod
 
+# ---- loop contracts of happysimulator/parallel/* (before the first repo import; the clause bodies are defined in
+# sections 4-7 below and resolved when a clause is evaluated)
+F_ROUTE = "happysimulator/parallel/routing.py"
+F_COORD = "happysimulator/parallel/coordinator.py"
+F_VALID = "happysimulator/parallel/validation.py"
+
+# route(): `for event in events` - the returned list and the outbox are the order-preserving filters of the
+# events seen so far (no loss, no duplication, no reordering), the outbox only grows at its end
+loop(F_ROUTE, "make_event_router.<locals>.route", 1, modifies=[("OutboxCell", "box")],
+     types={"local": lambda: Seq(Ref(Event))},
+     inv=[("returned-so-far-is-the-local-filter-in-order", lambda L: _route_inv_local(L)),
+          ("outbox-so-far-is-old-outbox-plus-the-linked-filter-with-send-time", lambda L: _route_inv_out(L)),
+          ("each-seen-event-went-to-exactly-one-side", lambda L: _route_inv_count(L))])
+
+# _exchange_events(): outer loop over the outboxes (arbitrary order), inner loop over one outbox (in order)
+_EXCH_MODS = [("Event", "time"), ("EventHeap", "_heap"), ("EventHeap", "_primary_event_count")]
+loop(F_COORD, "WindowedCoordinator._exchange_events", 1, modifies=[("WindowedCoordinator", "_outboxes")] + _EXCH_MODS,
+     inv=[("outboxes-already-exchanged-are-empty", lambda L: _exch_inv_visited_empty(L)),
+          ("outboxes-not-yet-exchanged-are-untouched", lambda L: _exch_inv_unvisited_same(L)),
+          ("the-set-of-outboxes-is-unchanged", lambda L: _exch_inv_same_keys(L)),
+          ("finite-timestamps-stay-finite", lambda L: _exch_inv_finite(L))])
+loop(F_COORD, "WindowedCoordinator._exchange_events", 2, modifies=_EXCH_MODS,
+     inv=[("walks-this-sources-outbox-as-it-was-in-order", lambda L: _exch_inv_walks_outbox(L)),
+          ("finite-timestamps-stay-finite", lambda L: _exch_inv_finite(L)),
+          # postconditions of ONE iteration (one outbox entry)
+          ("entry-scheduled-exactly-once-into-the-partition-owning-its-target-or-lost-on-the-declared-link",
+           lambda L: _exch_step(L, "who")),
+          ("scheduled-arrival-not-before-send-time-plus-min-latency-ns", lambda L: _exch_step(L, "latency")),
+          ("scheduled-arrival-not-before-the-window-end-nor-in-the-destinations-past", lambda L: _exch_step(L, "past"))])
+
 _n0 = len(_spec_mod.TASKS)
 import specs.C01 as c01  # noqa: E402
 del _spec_mod.TASKS[_n0:]
@@ -127,8 +157,12 @@ def _window_lemma():
 lemma("window-arithmetic-and-lookahead", _window_lemma)
 
 # =============================================================================== 3. links
+from happysimulator.distributions.latency_distribution import LatencyDistribution  # noqa: E402
+
+cls(LatencyDistribution, fields={})
 LINK = valueclass("PartitionLink", [PartitionLink], [("source_partition", Str), ("dest_partition", Str),
-                                                       ("min_latency", Real), ("latency", Any), ("packet_loss", Real)])
+                                                       ("min_latency", Real), ("latency", OptRef(LatencyDistribution)),
+                                                       ("packet_loss", Real)])
 fn(PartitionLink, "__post_init__", self_ty=LINK, inv=False,
    ensures=[("accepted-links-have-positive-latency-and-valid-loss", lambda s: (s.self.min_latency > 0)
              & (s.self.packet_loss >= 0) & (s.self.packet_loss < 1) & (s.self.source_partition != s.self.dest_partition))],
@@ -201,3 +235,371 @@ PROPERTY["bounded"].append({"name": "parallel-vs-sequential-differential",
                             "fn": _diff_models})
 PROPERTY["bounded"].append({"name": "window-arithmetic-float", "bound": "77 boundary pairs + 20000 (quick) / 2000000 (thorough) random (start_ns, window) pairs",
                             "fn": _window_float})
+
+# =============================================================================== 4. the event router
+# From the statement ("no cross-partition event is lost, duplicated ..."): of the events a handler returned,
+#   - those for an entity of this partition (or an anonymous callback entity) are handed back, in order;
+#   - those for an entity of a linked partition go to the outbox exactly once, in order, stamped with the
+#     sender's clock, and are NOT handed back;
+#   - an event for any other entity makes the call raise (never silently dropped).
+from pyvc.heap import CLASS_OF, class_id  # noqa: E402
+from happysimulator.core.callback_entity import CallbackEntity  # noqa: E402
+import happysimulator.parallel.routing as _routing_mod  # noqa: E402
+
+cls(CallbackEntity, fields={})
+# the target of an event is an Entity or an anonymous CallbackEntity (Event.once): the router tests for it
+cls(Event, fields={"target": Ref(Entity, variants=[Entity, CallbackEntity])})
+
+PAIR = Tuple(Ref(Event), TIME)            # one outbox entry: (event, send time)
+OUTBOX = Seq(PAIR)
+_EVSEQ = z3.SeqSort(z3.IntSort())
+
+
+class OutboxCell:
+    """spec-local stand-in for ONE outbox list object (the router closure and the coordinator share the list
+    object; the verifier's containers have value semantics, so the shared list lives in a heap field)"""
+
+
+cls(OutboxCell, fields={"box": OUTBOX})
+
+
+def route_through_router(cell, partition_name, local_entity_ids, linked_entity_ids, events, current_time):
+    """exactly what ParallelSimulation._install_routers builds and Simulation calls"""
+    route = _routing_mod.make_event_router(partition_name, local_entity_ids, linked_entity_ids, cell.box)
+    return route(events, current_time)
+
+
+def _set_dom(ss):
+    return ss._ty.dt.dom(ss.term)
+
+
+def _target_term(et):
+    from pyvc import ctx as _c
+    c = _c.cur()
+    owner, ty = REG.field(Event, "target")
+    return z3.Select(c.heap.array((owner, "target"), ty, c.pre_state), et)
+
+
+def _is_callback(t):
+    ids = sorted({class_id(k) for k in REG.classes if issubclass(k, CallbackEntity)} | {class_id(CallbackEntity)})
+    return z3.Or(*[CLASS_OF(t) == i for i in ids])
+
+
+def _stays_local(et, local_ids):
+    t = _target_term(et)
+    return z3.Or(_is_callback(t), z3.Select(_set_dom(local_ids), t))
+
+
+def _is_linked(et, linked_ids):
+    return z3.Select(_set_dom(linked_ids), _target_term(et))
+
+
+def _route_defs(ns):
+    """Floc(k) / Fout(k): the sub-sequences of events[0:k] that stay local / go out (as outbox entries), in order.
+    Definitional extension: two fresh functions with their recursion equations instantiated at the index used."""
+    from pyvc import ctx as _c
+    g = _c.cur().ghost_args
+    if "route_F" not in g:
+        tag = str(_c.cur().fresh("routeF", z3.IntSort()))
+        g["route_F"] = (z3.Function(tag + "_loc", z3.IntSort(), _EVSEQ), z3.Function(tag + "_out", z3.IntSort(), z3.SeqSort(PAIR.sort())))
+        assume(mk_bool(g["route_F"][0](0) == z3.Empty(_EVSEQ)))
+        assume(mk_bool(g["route_F"][1](0) == z3.Empty(z3.SeqSort(PAIR.sort()))))
+    return g["route_F"]
+
+
+def _route_unfold(ns, k):
+    """the recursion equations of Floc/Fout at index k (k >= 1)"""
+    floc, fout = _route_defs(ns)
+    kt = k.t if hasattr(k, "t") else z3.IntVal(k)
+    ev = ns.events.term[kt - 1]
+    loc = _stays_local(ev, ns.local_entity_ids)
+    out = z3.And(z3.Not(loc), _is_linked(ev, ns.linked_entity_ids))
+    entry = PAIR.dt.mk(ev, TIME.unwrap(ns.current_time))
+    assume(mk_bool(z3.Implies(kt >= 1, z3.And(
+        floc(kt) == z3.Concat(floc(kt - 1), z3.If(loc, z3.Unit(ev), z3.Empty(_EVSEQ))),
+        fout(kt) == z3.Concat(fout(kt - 1), z3.If(out, z3.Unit(entry), z3.Empty(z3.SeqSort(PAIR.sort()))))))))
+    return floc(kt), fout(kt)
+
+
+def _old_box(ns):
+    from pyvc import ctx as _c
+    return field_term(G("cell"), "box", _c.cur().pre_state)
+
+
+def _route_inv_local(L):
+    loc = L.local.term if isinstance(L.local, SymList) else Seq(Ref(Event)).unwrap(L.local)   # `[]` at loop entry
+    return mk_bool(loc == _route_unfold(L, L.i)[0])
+
+
+def _route_inv_out(L):
+    return mk_bool(field_term(G("cell"), "box") == z3.Concat(_old_box(L), _route_unfold(L, L.i)[1]))
+
+
+def _loc_term(L):
+    return L.local.term if isinstance(L.local, SymList) else Seq(Ref(Event)).unwrap(L.local)
+
+
+def _route_inv_count(L):
+    return slen(L.local) + (slen(G("cell").box) - mk_num(z3.Length(_old_box(L)))) == L.i
+
+
+def _route_setup(s):
+    from pyvc import ctx as _c
+    _c.cur().ghost_args["cell"] = s.cell
+    return []
+
+
+def _route_post(s):
+    n = slen(s.events)
+    return _route_unfold(s, n)
+
+
+def _ev_at(s, k):
+    return s.events.term[k.t]
+
+
+fn("specs.C05", "route_through_router", kind="function", setup=_route_setup,
+   args={"cell": Ref(OutboxCell), "partition_name": Str, "local_entity_ids": Set(Int), "linked_entity_ids": Set(Int),
+         "events": Seq(Ref(Event)), "current_time": TIME},
+   ensures=[
+       ("local-events-are-handed-back-once-in-order", lambda s: mk_bool(s.result.term == _route_post(s)[0])),
+       ("linked-events-are-appended-to-the-outbox-once-in-order-with-the-senders-clock", lambda s: mk_bool(
+           field_term(s.cell, "box") == z3.Concat(_old_box(s), _route_post(s)[1]))),
+       ("every-event-went-to-exactly-one-side", lambda s:
+           slen(s.result) + (slen(s.cell.box) - mk_num(z3.Length(_old_box(s)))) == slen(s.events)),
+       # (pointwise versions - "a local event is contained in the result" etc. - were tried as quantified loop
+       #  invariants: z3's sequence solver does not decide Contains/nth over Concat within 120 s; the two
+       #  equalities above with the recursion equations of _route_unfold are the specification)
+       ("events-are-not-touched", lambda s: forall(Ref(Event), lambda e: unchanged(s, e)))],
+   raises={RuntimeError: [("only-for-an-event-that-is-neither-local-nor-linked", lambda s: exists(Int, lambda k:
+           (0 <= k) & (k < slen(s.events)) & mk_bool(z3.And(z3.Not(_stays_local(_ev_at(s, k), s.local_entity_ids)),
+                                                          z3.Not(_is_linked(_ev_at(s, k), s.linked_entity_ids))))))]})
+
+# =============================================================================== 5. the barrier exchange
+# From the statement: every outbox entry is scheduled exactly once into the partition that owns its target, with
+# a timestamp >= send time + trunc(min_latency*1e9) ns (hence >= the window end >= every partition clock: never
+# into a partition's past), or it is lost on the link (declared packet loss), or the call raises; afterwards every
+# outbox is empty; entries of one outbox are handled in their order; no partition clock moves.
+import os as _os  # noqa: E402
+from pyvc.ctx import REPO as _REPO  # noqa: E402
+from happysimulator.parallel.coordinator import WindowedCoordinator  # noqa: E402
+
+# the link-latency override: `link.latency.sample()` does not exist on LatencyDistribution (finding, repair in
+# fixes/C05_link_latency_override.diff).  On a tree without the repair the contract below is restricted to links
+# without an override (requires), on a repaired tree it covers both kinds of link.
+LATENCY_OVERRIDE_REPAIRED = "link.latency.get_latency(send_time)" in open(_os.path.join(_REPO, F_COORD)).read()
+
+
+class LinkRng:
+    """spec-local model of the coordinator's random.Random: random() returns some float in [0, 1) (trusted)"""
+
+    def random(self):
+        raise NotImplementedError
+
+
+cls(LinkRng, fields={})
+stub_of(LinkRng, "random", returns=Real, modifies=[], ensures=[lambda s: (s.result >= 0) & (s.result < 1)])
+# a latency distribution returns SOME duration (nothing assumed about its size: the exchange must check it)
+stub_of(LatencyDistribution, "get_latency", returns=DURATION, modifies=[], ensures=[])
+
+KEY2 = Tuple(Str, Str)
+SIMS = Map(Str, Ref(Simulation))
+OUTBOXES = Map(Str, OUTBOX)
+E2P = Map(Int, Str)
+LINKMAP = Map(KEY2, LINK)
+cls(WindowedCoordinator, fields={
+    "_simulations": SIMS, "_links": Seq(LINK), "_outboxes": OUTBOXES, "_entity_to_partition": E2P,
+    "_window_size": Real, "_start_time": TIME, "_end_time": INSTANT, "_max_workers": Int, "_rng": Ref(LinkRng),
+    "_link_map": LINKMAP},
+    const=["_simulations", "_links", "_entity_to_partition", "_window_size", "_start_time", "_end_time", "_link_map"])
+
+# Simulation.schedule(one event) while the partition is running (what the exchange does): one more pending
+# occurrence of exactly that event in that partition's heap, nothing else
+fn(Simulation, "schedule", args={"events": Ref(Event)},
+   modifies=[(lambda s: s.self._event_heap, "_heap"), (lambda s: s.self._event_heap, "_primary_event_count")],
+   requires=[lambda s: s.self._is_running, lambda s: Not(s.self._event_heap._tracing_enabled)],
+   ensures=[("adds-one-pending-occurrence-of-the-event", lambda s: mk_bool(
+                hcnt(s.self._event_heap) == z3.Store(hcnt(s.old(s.self._event_heap)), s.events._ref,
+                                                     z3.Select(hcnt(s.old(s.self._event_heap)), s.events._ref) + 1))),
+            ("primary-count-follows", lambda s: s.self._event_heap._primary_event_count
+                == s.old(s.self._event_heap)._primary_event_count + ite(s.events.daemon, 0, 1)),
+            ("event-and-clock-untouched", lambda s: unchanged(s, s.events) & unchanged(s, s.self))])
+
+
+def _m(d):
+    """(dom, val) arrays of a symbolic dict"""
+    return d._ty.dt.dom(d.term), d._ty.dt.val(d.term)
+
+
+def _tgt_now(ev):
+    return field_term(ev, "target")
+
+
+def _owner_name(coord, ev):
+    """name of the partition that owns the event's target (term)"""
+    return z3.Select(_m(coord._entity_to_partition)[1], _tgt_now(ev))
+
+
+def _exch_inv_visited_empty(L):
+    dom, val = _m(L.self._outboxes)
+    return forall(Str, lambda k: implies(contains(L.visited, k), mk_bool(z3.Length(z3.Select(val, k.t)) == 0)))
+
+
+def _exch_inv_unvisited_same(L):
+    dom, val = _m(L.self._outboxes)
+    val0 = _m(L.old(L.self)._outboxes)[1]
+    return forall(Str, lambda k: contains(L.visited, k) | mk_bool(z3.Select(val, k.t) == z3.Select(val0, k.t)))
+
+
+def _exch_inv_same_keys(L):
+    return mk_bool(_m(L.self._outboxes)[0] == _m(L.old(L.self)._outboxes)[0])
+
+
+def _exch_inv_walks_outbox(L):
+    val = _m(L.self._outboxes)[1]
+    val0 = _m(L.old(L.self)._outboxes)[1]
+    k = L.source_name.t if hasattr(L.source_name, "t") else z3.StringVal(L.source_name)
+    from pyvc import ctx as _c
+    _c.cur().note_term(k)                                  # instantiation terms for the per-entry preconditions
+    it = L.i.t if hasattr(L.i, "t") else z3.IntVal(L.i)
+    _c.cur().note_term(it)
+    _c.cur().note_term(PAIR.dt.f0(L.seq.term[it]))         # the event of the entry about to be handled
+    return mk_bool(z3.And(L.seq.term == z3.Select(val, k), L.seq.term == z3.Select(val0, k)))
+
+
+def _exch_inv_finite(L):
+    from pyvc import ctx as _c
+    owner, ty = REG.field(Event, "time")
+    t0 = _c.cur().heap.array((owner, "time"), ty, _c.cur().pre_state)
+    return forall(Ref(Event), lambda e: implies(mk_bool(I_DT.tag(z3.Select(t0, e._ref)) == 0),
+                                                mk_bool(I_DT.tag(field_term(e, "time")) == 0)))
+
+
+def _calls(name):
+    tr = G("trace") if has_G("trace") else []
+    return [r for r in tr if r[0] == name]
+
+
+def _exch_step(L, part):
+    """postcondition of ONE iteration of the inner loop (one outbox entry)"""
+    if L.loop_phase != "step":
+        return True
+    coord = L.self
+    sched, rnd = _calls("Simulation.schedule"), _calls("LinkRng.random")
+    ev, send = L.event, L.send_time
+    # (the entry handled is the i-th of the outbox: by the for-loop; its owner is known: precondition)
+    owner = _owner_name(coord, ev)
+    link_t = z3.Select(_m(coord._link_map)[1], KEY2.dt.mk(Str.unwrap(L.source_name), owner))
+    is_declared_link = mk_bool(z3.And(num_term(L.link.min_latency)[0] == LINK.dt.min_latency(link_t),
+                                      num_term(L.link.packet_loss)[0] == LINK.dt.packet_loss(link_t)))
+    if len(sched) > 1:
+        return False
+    if len(sched) == 1:
+        a = sched[0][1]
+        t_ns = I_DT.nanoseconds(field_term(ev, "time"))
+        sim = a["self"]
+        if part == "who":
+            r = (same(a["events"], ev) & mk_bool(sim._ref == z3.Select(_m(coord._simulations)[1], owner))
+                 & is_declared_link)
+            if L.link.latency is None:      # "the same events at the same times": no override, no re-timing
+                r = r & mk_bool(field_term(ev, "time") == field_term(ev, "time", L.head_state))
+            return r & forall(Ref(Event), lambda e: same(e, ev) | mk_bool(
+                field_term(e, "time") == field_term(e, "time", L.head_state)), "other")
+        if part == "latency":
+            return mk_bool(t_ns >= num_term(send.nanoseconds)[0] + num_term(trunc_ns(L.link.min_latency))[0])
+        return mk_bool(z3.And(t_ns >= num_term(G("win_end_ns"))[0],
+                              t_ns >= I_DT.nanoseconds(field_term(sim, "_current_time"))))
+    # not scheduled: only the link's declared packet loss may swallow an entry
+    if part != "who":
+        return True
+    if len(rnd) != 1:
+        return False
+    return is_declared_link & (L.link.packet_loss > 0) & (rnd[0][2] < L.link.packet_loss)
+
+
+def _exch_setup(s):
+    from pyvc import ctx as _c
+    g = _c.cur().ghost_args
+    ws = fresh(Int, "window_start_ns")
+    g["win_start_ns"] = ws
+    g["win_end_ns"] = s.window_end.nanoseconds
+    return []
+
+
+def _exch_requires():
+    def entries(s, body):
+        """for every outbox k and position j: body(entry term)"""
+        # (hand-instantiated: the inner loop's invariant registers its key and index as instantiation terms;
+        #  a real z3 quantifier here makes every feasibility check of the path exploration undecided)
+        def at_k(k):
+            dom, val = _m(s.self._outboxes)
+            box = z3.Select(val, k.t)
+            return forall(Int, lambda j: implies(mk_bool(z3.And(z3.Select(dom, k.t), 0 <= j.t, j.t < z3.Length(box))),
+                                                 mk_bool(body(box[j.t]))), "rq_j")
+        return forall(Str, at_k, "rq_k")
+    rq = [
+        # construction (ParallelSimulation._run_coordinated): every owner recorded for an entity is a partition
+        ("owners-are-partitions", lambda s: forall(Int, lambda t: implies(
+            mk_bool(z3.Select(_m(s.self._entity_to_partition)[0], t.t)),
+            mk_bool(z3.Select(_m(s.self._simulations)[0], z3.Select(_m(s.self._entity_to_partition)[1], t.t)))))),
+        # every partition has run this window (Simulation._run_window): running, clock not past the window end
+        ("partitions-ran-the-window", lambda s: forall(Str, lambda n: implies(
+            mk_bool(z3.Select(_m(s.self._simulations)[0], n.t)),
+            _sim_at(s, n)._is_running & Not(_sim_at(s, n)._event_heap._tracing_enabled)
+            & mk_bool(z3.And(I_DT.tag(field_term(_sim_at(s, n), "_current_time")) == 0,      # (raw terms: no forks)
+                             I_DT.nanoseconds(field_term(_sim_at(s, n), "_current_time"))
+                             <= num_term(s.window_end.nanoseconds)[0]))))),
+        # the router only puts events for entities of linked partitions into an outbox (section 4) and the
+        # coordinator's entity map is built from the same entity lists
+        ("outbox-targets-are-known-entities", lambda s: entries(s, lambda ent: z3.Select(
+            _m(s.self._entity_to_partition)[0], _target_term(PAIR.dt.f0(ent))))),
+        # event timestamps are finite instants (COMMON assumption)
+        ("outbox-events-have-finite-timestamps", lambda s: entries(s, lambda ent: I_DT.tag(z3.Select(
+            _ctx_heap_array("Event", "time"), PAIR.dt.f0(ent))) == 0)),
+        # send times are partition clocks of this window (router) and clocks never decrease (C01)
+        ("sent-in-this-window", lambda s: entries(s, lambda ent: TIME.dt.nanoseconds(PAIR.dt.f1(ent)) >= G("win_start_ns").t)),
+        # window arithmetic (lemma of section 2; run loop of section 7)
+        ("window-no-longer-than-window-size", lambda s: (G("win_start_ns") <= s.window_end.nanoseconds)
+            & (s.window_end.nanoseconds - G("win_start_ns") <= trunc_ns(s.self._window_size)) & (s.self._window_size > 0)),
+        # validate_partitions (section 6) + PartitionLink.__post_init__ (section 3) for every declared link
+        ("links-are-valid-and-not-shorter-than-the-window", lambda s: forall(Raw(KEY2.sort()), lambda k: _link_ok(s, k))),
+    ]
+    return rq
+
+
+def _ctx_heap_array(cname, fname):
+    """the current array of a heap field (raw term)"""
+    from pyvc import ctx as _c
+    c = _c.cur()
+    owner, ty = REG.field(REG.by_name[cname].pyclass, fname)
+    return c.heap.array((owner, fname), ty)
+
+
+def _sim_at(s, n):
+    return ObjProxy(z3.Select(_m(s.self._simulations)[1], n.t), Simulation)
+
+
+def _link_ok(s, k):
+    kt = k.t if hasattr(k, "t") else k
+    lt = z3.Select(_m(s.self._link_map)[1], kt)
+    d = LINK.dt
+    ok = z3.And(d.min_latency(lt) > 0, d.packet_loss(lt) >= 0, d.packet_loss(lt) < 1,
+                num_term(s.self._window_size)[0] <= d.min_latency(lt))
+    if not LATENCY_OVERRIDE_REPAIRED:
+        ok = z3.And(ok, d.latency(lt) == 0)        # no latency override (see LATENCY_OVERRIDE_REPAIRED above)
+    return mk_bool(ok)
+
+
+from pyvc.sym import num_term  # noqa: E402
+
+fn(WindowedCoordinator, "_exchange_events", args={"window_end": TIME}, setup=_exch_setup,
+   uses=[(Simulation, "schedule"), (LinkRng, "random"), (LatencyDistribution, "get_latency")],
+   requires=_exch_requires(),
+   ensures=[("every-outbox-is-empty-afterwards", lambda s: forall(Str, lambda k: implies(
+                mk_bool(z3.Select(_m(s.self._outboxes)[0], k.t)),
+                mk_bool(z3.Length(z3.Select(_m(s.self._outboxes)[1], k.t)) == 0)))),
+            ("the-set-of-outboxes-is-unchanged", lambda s: mk_bool(
+                _m(s.self._outboxes)[0] == _m(s.old(s.self)._outboxes)[0])),
+            ("no-partition-clock-moves", lambda s: forall(Ref(Simulation), lambda x: unchanged(s, x, "_current_time"))
+                & forall(Ref(Clock), lambda x: unchanged(s, x, "_current_time")))],
+   raises={RuntimeError: [("only-for-a-missing-link-or-an-early-arrival", lambda s: True)]})
